@@ -10,7 +10,7 @@ import Percival.Model.Strtod
 to `*x` (rounded to binary32 for `float`).
 -/
 namespace Percival.Model.ParsenumFloat
-open Percival.Spec.Numeral Percival.Model.Strto Percival.Model.Strtod Percival.Model.Parsenum
+open Percival.Spec.Numeral Percival.Spec.Parsenum Percival.Model.Strto Percival.Model.Strtod Percival.Model.Parsenum
 
 inductive FTy
   | f32 | f64
